@@ -1380,6 +1380,28 @@ carquet_status_t parquet_write_file_metadata(
         thrift_write_string(&enc, metadata->created_by);
     }
 
+    /* Field 7: column_orders. The statistics carry min_value/max_value, and
+     * the format leaves those undefined (readers ignore them) unless the sort
+     * order is stated here: one ColumnOrder per leaf column, all TYPE_ORDER
+     * (union field 1, an empty TypeDefinedOrder struct). */
+    {
+        int32_t num_leaves = 0;
+        for (int32_t i = 1; i < metadata->num_schema_elements; i++) {
+            if (metadata->schema[i].num_children == 0) num_leaves++;
+        }
+        if (num_leaves > 0) {
+            thrift_write_field_header(&enc, THRIFT_TYPE_LIST, 7);
+            thrift_write_list_begin(&enc, THRIFT_TYPE_STRUCT, num_leaves);
+            for (int32_t i = 0; i < num_leaves; i++) {
+                thrift_write_struct_begin(&enc);
+                thrift_write_field_header(&enc, THRIFT_TYPE_STRUCT, 1);
+                thrift_write_struct_begin(&enc);
+                thrift_write_struct_end(&enc);
+                thrift_write_struct_end(&enc);
+            }
+        }
+    }
+
     thrift_write_struct_end(&enc);
 
     if (thrift_encoder_has_error(&enc)) {
